@@ -227,5 +227,15 @@ Lazy == LET ix == Idx(A, Call(B, <<D>>)) IN
 
 Trees == {e \in Leaves \cup Trees1 \cup Trees1Lit \cup Trees2 \cup Lazy : Legal(e)}
 
+(* Identifier spellings.  The trees above name their leaves a..e; to JavaScript an identifier is a maximal run of
+   identifier characters (letters, digits, `_`, `$`), so a name that BEGINS with a word the expression language writes
+   in letters - an operator (typeof, void, instanceof) or a literal (true, false, null, undefined, NaN, Infinity) - and
+   goes on with `_`, `$`, a digit or a letter is one identifier, as are `_` and `$` alone.  Every tree is also replayed
+   with its leaves renamed into this set (the check reads the set from here); the tree's shape, and so its reference
+   value under the renamed environment, is unchanged. *)
+TrickyNames == {"typeof_x", "typeofx", "typeof1", "void$", "void_0", "voided", "instanceof_", "instanceofx",
+                "true_", "false1", "null_", "nullx", "undefined1", "undefined_", "NaNx", "Infinity_",
+                "_", "$", "$a", "_1", "a$b", "x1_", "in_", "newx"}
+
 RoundTripOf(e, extra) == ParseRef(Pr(e, extra)) = e
 =============================================================================
